@@ -3,7 +3,9 @@ HOOK_COMMITS = ["7ed0aad", "d8606cd", "08f1a83", "8f24443"]
 NOTES = ("Every check rebuilds the harness against /repo's working tree and the Lean project, runs the proof stage "
          "(lake build of the property's theorem module + #print axioms audit), the model/implementation correspondence "
          "and the property oracle on the implementation. Genuine defects found are repaired by fix: commits in /repo "
-         "or listed in known_findings.json.")
+         "or listed in known_findings.json. The constants the protocols put on the wire or decide by (request bytes, magic "
+         "numbers, default ports, size limits, tables: 114 of them) are TRANSLATED from the source on every run (tools/xlate.py -> "
+         "lean/GdVerif/Gen/Consts.lean) and theorems Props/Cnn_consts.lean state source = model = specification for each.")
 NOT_YET = {}
 TB = ("Trusted: Lean kernel (axioms propext, Classical.choice, Quot.sound only; audited by #print axioms on every run); "
       "the hand-written model's correspondence to the code (differential, bounded by the generators whose distribution is in the evidence); ")
@@ -208,7 +210,8 @@ CLAIMS = {
         "after L<=r timed-out attempts the first non-timeout attempt (valid or malformed) decides the result after exactly L+1 attempts "
         "(a malformed reply is never retried); r+1 timeouts give the last timeout-class error; the combinator has no crash of its own for "
         "any r (incl. usize::MAX, repaired in /repo). (2) END TO END on whole queries under any fault plan (Props/C10_<family>_whole.lean; "
-        "Valve, The Ship, FFOW, Quake 1/2/3, GameSpy 2, GameSpy 3 incl. query_vars, JC2M): for every state of the SPEC's domain, every setting and "
+        "Valve, The Ship, FFOW, Quake 1/2/3, GameSpy 1 (also with some parts of the reply delivered before the silence), GameSpy 2, GameSpy 3 incl. query_vars, "
+        "JC2M, Unreal 2, Mindustry (a socket per attempt), Minecraft Java / Bedrock / legacy): for every state of the SPEC's domain, every setting and "
         "retry count, and failed attempts (a silence or a failed send, at the first exchange of an attempt or after its challenge / handshake "
         "rounds) placed before the valid exchange of each unit: if every unit loses at most r attempts the query returns exactly the fault-free "
         "response and unit i is attempted k_i+1 times (…_query_recovers); after r+1 timeouts of an enforced unit the query fails with the last "
@@ -218,7 +221,7 @@ CLAIMS = {
         "fault, malformed, valid} up to length r+2, r in 0..3, at each unit and stage of every family with a fault builder, recovering vectors at two "
         "or three units of one query at once, attempts counted on the wire; for the families under (2) every injected script is rebuilt by the model "
         "driver from the SPEC's plan (identical line, theorem hypotheses evaluated, result and sent list compared with the SPEC's)."),
-  note=TB + "timeouts are scripted (silence); real socket timeouts belong to C12. Whole-query theorems do not yet cover GameSpy 1, Unreal 2, Minecraft and Mindustry (new socket or TCP per attempt; receive loops), nor a timeout between the fragments of one reply. Recorded finding: The Ship reports an exhausted players / rules unit as PacketBad.",
+  note=TB + "timeouts are scripted (silence); real socket timeouts belong to C12. Whole-query theorems do not cover a timeout between the fragments of one Valve / GameSpy 3 split reply (the fault-vector differential and C12 exercise it). Recorded finding: The Ship reports an exhausted players / rules unit as PacketBad.",
   technique="Lean 4 proof (induction on the retry count; exact-outcome logic Steps over queue, fault flags and sent list for whole queries) + fault-vector and plan differential"),
  "C11": dict(
   category="proof",
